@@ -480,7 +480,7 @@ impl<P: Property> Batch<P> {
                             watch.slots[w].store(index + 1, Ordering::Release);
                             let mut obs = Obs::new();
                             let t_run = std::time::Instant::now();
-                            let r = run_guarded(&s, &mut obs);
+                            let r = with_absurd_hook::<P, _>(&s, me.seed, index, false, || run_guarded(&s, &mut obs));
                             if slow_report && t_run.elapsed().as_millis() > 300 {
                                 // diagnostics only (stderr): never part of the trace
                                 eprintln!("slow run index={index} ms={} steps={}", t_run.elapsed().as_millis(), obs.steps);
@@ -541,6 +541,39 @@ impl<P: Property> Batch<P> {
 /// Stack size of every thread that calls into the code under test (virtual memory; touched pages only are committed).
 pub const BIG_STACK: usize = 1 << 30;
 
+static REPLAY_PATH: std::sync::OnceLock<String> = std::sync::OnceLock::new();
+
+thread_local! {
+    static ABSURD_CTX: std::cell::Cell<(u64, u64, bool)> = const { std::cell::Cell::new((0, 0, false)) };
+}
+
+/// Called from inside the counting allocator (measuring suspended) when the code under test asks for >= 64 GiB at once.
+fn absurd_alloc<P: Property>(p: *const (), size: usize) {
+    // SAFETY: the pointer was taken from a live `&P::S` by `with_absurd_hook`, which clears the hook before the borrow ends
+    let s: &P::S = unsafe { &*(p as *const P::S) };
+    let (seed, index, replaying) = ABSURD_CTX.with(|c| c.get());
+    let v = Violation::new("alloc_absurd", format!("the code under test requested a single allocation of {size} bytes (the process would abort)"));
+    if replaying {
+        println!("REPLAY property={} result=violation clause=alloc_absurd steps=0", P::ID);
+        println!("  detail: {}", v.detail);
+        println!("VIOLATION property={} replay={} clause=alloc_absurd ", P::ID, REPLAY_PATH.get().map(|s| s.as_str()).unwrap_or("?"));
+    } else {
+        let path = write_replay::<P>(s, &v, seed, index, 0);
+        println!("  detail: {}", v.detail);
+        println!("VIOLATION property={} replay={} clause=alloc_absurd (not minimised: the run would abort the process)", P::ID, path);
+    }
+    std::process::exit(1);
+}
+
+/// Run `f` (which runs scenario `s`) with the absurd-allocation report installed on this thread.
+pub fn with_absurd_hook<P: Property, R>(s: &P::S, seed: u64, index: u64, replaying: bool, f: impl FnOnce() -> R) -> R {
+    ABSURD_CTX.with(|c| c.set((seed, index, replaying)));
+    crate::alloc::set_absurd_hook(Some((absurd_alloc::<P>, s as *const P::S as *const ())));
+    let r = f();
+    crate::alloc::set_absurd_hook(None);
+    r
+}
+
 fn report_hang<P: Property>(seed: u64, index: u64, s: &P::S) -> ! {
     let v = Violation::new("hang", "run did not return within the watchdog limit (no stub call cap reached)");
     let path = write_replay::<P>(s, &v, seed, index, 0);
@@ -597,7 +630,7 @@ pub fn verif_dir() -> String {
 pub fn write_replay<P: Property>(s: &P::S, v: &Violation, seed: u64, index: u64, min_execs: u32) -> String {
     // the executed schedule and fault trace of this scenario (first 400 simulator events), for the reader of the file; replay
     // itself only needs `scenario`
-    let executed: Vec<Json> = if v.clause == "hang" {
+    let executed: Vec<Json> = if v.clause == "hang" || v.clause == "alloc_absurd" {
         Vec::new()
     } else {
         with_event_log(|| {
@@ -640,9 +673,10 @@ pub fn replay<P: Property>(j: &Json, path: &str) -> i32 {
         }
     };
     let expected = j.get("clause").and_then(|c| c.as_str()).unwrap_or("");
+    let _ = REPLAY_PATH.set(path.to_string());
     let (res, obs) = with_event_log(|| {
         let mut obs = Obs::new();
-        let r = run_guarded(&s, &mut obs);
+        let r = with_absurd_hook::<P, _>(&s, 0, 0, true, || run_guarded(&s, &mut obs));
         (r, obs)
     });
     if let Some(l) = &obs.log {
